@@ -395,23 +395,7 @@ func c07(c *rt.Ctx) {
 					continue
 				}
 				nAdd++
-				var sinks []ssa.Instruction
-				for _, in := range an.Instrs(fn, false) {
-					switch x := in.(type) {
-					case *ssa.MapUpdate:
-						if _, _, grow := c07growAppend(x, c07entries); grow && c07entries(x.Map) {
-							sinks = append(sinks, in)
-						}
-					case ssa.CallInstruction:
-						if g := k.ix.Callee(x.Common()); g != nil && k.growsEntries(g) {
-							sinks = append(sinks, in)
-						}
-					}
-				}
-				if len(sinks) == 0 {
-					c.Unsure("StoreExternal expired→no store", add.Pos(), "no insertion into entries (direct or through an in-package helper) in the function that asks the deadliner")
-					continue
-				}
+				sinks := k.p5sinks(fn)
 				addv := add.Value()
 				env := k.withSummaries(func(v ssa.Value) (constant.Value, bool) {
 					if v == ssa.Value(addv) {
@@ -419,6 +403,14 @@ func c07(c *rt.Ctx) {
 					}
 					return nil, false
 				})
+				if len(sinks) == 0 {
+					// the deadliner is asked in a helper (`admitDuty(…) (exempt, ok bool)`): what it returns for an expired
+					// duty decides in its callers
+					if !k.p5viaCallers(fn, add, env) {
+						c.Unsure("StoreExternal expired→no store", add.Pos(), "no insertion into entries (direct or through an in-package helper) in the function that asks the deadliner")
+					}
+					continue
+				}
 				decided := 0
 				for _, b := range fn.Blocks {
 					if iff, ok := b.Instrs[len(b.Instrs)-1].(*ssa.If); ok {
@@ -513,6 +505,112 @@ func c07(c *rt.Ctx) {
 			}
 		}
 	})
+}
+
+// p5sinks: the instructions of fn that insert into entries (directly or through an in-package callee).
+func (k *c07k) p5sinks(fn *ssa.Function) []ssa.Instruction {
+	var sinks []ssa.Instruction
+	for _, in := range an.Instrs(fn, false) {
+		switch x := in.(type) {
+		case *ssa.MapUpdate:
+			if _, _, grow := c07growAppend(x, c07entries); grow && c07entries(x.Map) {
+				sinks = append(sinks, in)
+			}
+		case ssa.CallInstruction:
+			if g := k.ix.Callee(x.Common()); g != nil && k.growsEntries(g) {
+				sinks = append(sinks, in)
+			}
+		}
+	}
+	return sinks
+}
+
+// p5viaCallers decides P5 when the function that asks the deadliner (fn, at add) does not store itself: the
+// constants it returns on the returns reachable under "status == DeadlineExpired" (env) are assumed for the
+// results of its calls, and under them no insertion may be reachable in the callers. Reports per sink; false
+// when the shape is not followed.
+func (k *c07k) p5viaCallers(fn *ssa.Function, add ssa.Instruction, env an.C05Env) bool {
+	sites, closed := k.ix.Callers(fn)
+	if !closed || len(sites) == 0 {
+		return false
+	}
+	var res []constant.Value
+	n := 0
+	for _, r := range an.Returns(fn) {
+		if !an.Dominates(add, r) || !an.C05ReachUnder(add, r, env) {
+			if an.Dominates(add, r) {
+				continue
+			}
+			return false
+		}
+		rv := returnValues(r)
+		if n == 0 {
+			res = make([]constant.Value, len(rv))
+		}
+		for i, v := range rv {
+			if i >= len(res) {
+				return false
+			}
+			c, ok := an.C05Eval(an.Resolve(v), env)
+			switch {
+			case !ok:
+				res[i] = nil
+			case n == 0:
+				res[i] = c
+			case res[i] != nil && !constant.Compare(res[i], token.EQL, c):
+				res[i] = nil
+			}
+		}
+		n++
+	}
+	if n == 0 {
+		return false
+	}
+	done := false
+	for _, s := range sites {
+		call, isCall := s.(*ssa.Call)
+		if !isCall {
+			return false
+		}
+		known := map[ssa.Value]constant.Value{}
+		if len(res) == 1 && res[0] != nil {
+			known[call] = res[0]
+		} else if call.Referrers() != nil {
+			for _, ref := range *call.Referrers() {
+				if ex, ok := ref.(*ssa.Extract); ok && ex.Index < len(res) && res[ex.Index] != nil {
+					known[ex] = res[ex.Index]
+				}
+			}
+		}
+		env2 := k.withSummaries(func(v ssa.Value) (constant.Value, bool) {
+			c, ok := known[v]
+			return c, ok
+		})
+		caller := s.Parent()
+		sinks := k.p5sinks(caller)
+		if len(sinks) == 0 || len(known) == 0 {
+			return false
+		}
+		decided := 0
+		for _, b := range caller.Blocks {
+			if iff, ok := b.Instrs[len(b.Instrs)-1].(*ssa.If); ok {
+				if _, ok := an.C05Eval(iff.Cond, env2); ok {
+					decided++
+				}
+			}
+		}
+		for _, st := range sinks {
+			if decided == 0 {
+				k.c.Unsure("StoreExternal expired→no store", st.Pos(), "no branch is decided by what "+an.FuncName(fn)+" returns for an expired duty (expiry test not recognised)")
+				done = true
+				continue
+			}
+			good := an.Dominates(call, st) && !an.C05ReachUnder(call, st, env2)
+			k.c.Check("StoreExternal expired→no store", st.Pos(), good, "db.store is reachable when deadliner.Add reports DeadlineExpired")
+			done = true
+		}
+	}
+	return done
 }
 
 // c07isBuiltin2 matches an instruction that is a call of the named builtin.
